@@ -39,6 +39,18 @@ class UnlinkAnalysis(Analysis):
     def on_node(self, node, st):
         if node.e is None:
             return [st]
+        # may-be-2 tracking of variables assigned from the recursive call
+        for n in node.e.walk():
+            if n.k == "BinaryOperator" and n.v == "=":
+                l = strip(n.kids[0])
+                r = strip(n.kids[1])
+                if l is not None and l.k == "DeclRefExpr":
+                    if r is not None and r.k == "CallExpr" and callee(r) == ("fn", self.cfg.name):
+                        st = sset(st, "s2:" + l.n, "maybe")
+                    elif const_int(n.kids[1]) is not None:
+                        st = sset(st, "s2:" + l.n, "yes" if const_int(n.kids[1]) == 2 else None)
+                    elif r is not None and r.k == "CallExpr":
+                        st = sset(st, "s2:" + l.n, None)
         for n in node.e.walk():
             if n.k == "CallExpr":
                 c = callee(n)
@@ -49,7 +61,113 @@ class UnlinkAnalysis(Analysis):
                     st = sset(st, "u", node.where)
         return [st]
 
+    def delete_only_param(self):
+        """a parameter P such that every `X = 2` of this function sits behind
+        the false edge of a test of P, and the recursive call passes P on: by
+        induction status 2 arises only when P is NULL (deletes)"""
+        cfg = self.cfg
+        params = [k.n for k in cfg.fn.kids if k.k == "ParmVarDecl" and (k.t or "").strip().endswith("*")]
+        live = cfg.live_nodes()
+        twos = [nd for nd in live if nd.e is not None and nd.kind != "branch" and any(
+            n.k == "BinaryOperator" and n.v == "=" and const_int(n.kids[1]) == 2 and
+            strip(n.kids[0]) is not None and strip(n.kids[0]).k == "DeclRefExpr" for n in nd.e.walk())]
+        if not twos:
+            return None
+        dom = cfg.dominators()
+
+        def reach(start, barrier):
+            seen, work = set(), [start]
+            while work:
+                x = work.pop()
+                if x.id in seen or x.id == barrier:
+                    continue
+                seen.add(x.id)
+                work.extend(s2 for _, s2 in x.succ)
+            return seen
+        for pn in params:
+            # passed on unchanged in every recursive call
+            calls = [n for n in cfg.fn.walk() if n.k == "CallExpr" and callee(n) == ("fn", cfg.name)]
+            idx = [k.n for k in cfg.fn.kids if k.k == "ParmVarDecl"].index(pn)
+            if not calls or not all(len(c.kids) > 1 + idx and path(c.kids[1 + idx]) == pn for c in calls):
+                continue
+            ok = True
+            for nd in twos:
+                guarded = False
+                for g in live:
+                    if g.kind != "branch" or g.e is None or g.id not in dom.get(nd.id, ()):
+                        continue
+                    e = strip(g.e)
+                    neg = False
+                    while e is not None and e.k == "UnaryOperator" and e.v == "!":
+                        neg = not neg
+                        e = strip(e.kids[0])
+                    if e is None or e.k != "DeclRefExpr" or e.n != pn:
+                        continue
+                    nonnull = [s2 for l, s2 in g.succ if l == ("F" if neg else "T")]
+                    if nonnull and nd.id not in reach(nonnull[0], g.id):
+                        guarded = True
+                        break
+                if not guarded:
+                    ok = False
+                    break
+            if ok:
+                return pn
+        return None
+
+    def index_vars(self):
+        """the variable(s) that select the child: `d = self->data + X`"""
+        out = set()
+        for n in self.cfg.fn.walk():
+            rhs = None
+            if n.k == "BinaryOperator" and n.v == "=":
+                rhs = strip(n.kids[1])
+            elif n.k == "VarDecl" and n.kids and n.kids[-1].k != "Absent":
+                rhs = strip(n.kids[-1])
+            if rhs is not None and rhs.k == "BinaryOperator" and rhs.v == "+":
+                a, b = strip(rhs.kids[0]), strip(rhs.kids[1])
+                if a is not None and a.k == "MemberExpr" and a.n == "data" and b is not None and b.k == "DeclRefExpr":
+                    out.add(b.n)
+        return out
+
+    def on_edge(self, node, label, st):
+        st = Analysis.on_edge(self, node, label, st) if hasattr(Analysis, "on_edge") else st
+        if st is None or label not in ("T", "F") or node.e is None:
+            return st
+        if not hasattr(self, "_idx"):
+            self._idx = self.index_vars()
+        want = label == "T"
+        e = strip(node.e)
+        while e is not None and e.k == "UnaryOperator" and e.v == "!":
+            want = not want
+            e = strip(e.kids[0])
+        if e is None:
+            return st
+        var = zero = None
+        if e.k == "DeclRefExpr" and e.n in self._idx:
+            var, zero = e.n, not want
+        elif e.k == "BinaryOperator" and e.v in ("==", "!=", ">") and const_int(e.kids[1]) == 0:
+            a = strip(e.kids[0])
+            if a is not None and a.k == "DeclRefExpr" and a.n in self._idx:
+                var = a.n
+                zero = want if e.v == "==" else not want
+        if var is not None:
+            st = sset(st, "z:" + var, 0 if zero else "NZ")
+        if not hasattr(self, "_delparam"):
+            self._delparam = self.delete_only_param()
+        if e.k == "DeclRefExpr" and e.n == self._delparam and want:
+            # not a delete: the status cannot be 2 on this path
+            st = frozenset((k, v) for k, v in st if not k.startswith("s2:"))
+        if e.k == "BinaryOperator" and e.v in ("==", "!=") and const_int(e.kids[1]) == 2:
+            a = strip(e.kids[0])
+            if a is not None and a.k == "DeclRefExpr" and sget(st, "s2:" + a.n) is not None:
+                is2 = want if e.v == "==" else not want
+                st = sset(st, "s2:" + a.n, "yes" if is2 else None)
+        return st
+
     def check_exits(self):
+        if not hasattr(self, "_idx"):
+            self._idx = self.index_vars()
+        self.first_reports = []
         for n in self.cfg.returns():
             if n.e is None:
                 continue
@@ -58,6 +176,11 @@ class UnlinkAnalysis(Analysis):
                 u = sget(st, "u")
                 if u is not None and v == 2:
                     self.reports.append((n, st, u))
+                r0 = strip(n.e)
+                may2 = v == 2 or (v is None and r0 is not None and r0.k == "DeclRefExpr" and
+                                  sget(st, "s2:" + r0.n) in ("maybe", "yes"))
+                if may2 and self._idx and not any(sget(st, "z:" + x) == 0 for x in self._idx):
+                    self.first_reports.append((n, st))
 
 
 def c_rules(tu):
@@ -78,6 +201,19 @@ def c_rules(tu):
                    "reports status 2 ('first bucket went away') to its "
                    "caller: an ancestor will unlink a second, live leaf and "
                    "its keys vanish from iteration" % u,
+            path=witness_lines(an.witness(n, st))))
+    if not an._idx:
+        raise AnalysisError("anchor vanished: child selection `self->data + index` in _BTree_set")
+    if an.first_reports:
+        n, st = an.first_reports[0]
+        findings.append(dict(
+            rule="UNLINK-STATUS", function="_BTree_set", file=n.where.split(":")[0], line=n.line,
+            construct="returns status 2 without having established that the child is the first child",
+            detail="status 2 tells the caller that *its* first leaf under this node went away; that "
+                   "is only true when the child that lost its first leaf is this node's child 0 "
+                   "(index %s tested zero). On this path the index was not tested: for any other "
+                   "child the predecessor leaf must be relinked here, and the caller - told 2 - "
+                   "unlinks a wrong leaf or none" % "/".join(sorted(an._idx)),
             path=witness_lines(an.witness(n, st))))
     if an.sites < 2:
         raise AnalysisError("anchor vanished: unlink calls in _BTree_set (%d)" % an.sites)
